@@ -285,9 +285,13 @@ class IndentAndNameChecker(BaseChecker):
         # Catching also no-uppercase config names (TyPO_NAME) to throw an error later on.
         # Quoted symbols are "y"/"n", env_vars or string literals;
         # the last two categories can contain anything between the quotes, thus it is broader.
-        symbol = r"\w+|\".+?\"|'.+?'"
+        # A quoted symbol ends at the first quote that is not escaped with a backslash.
+        symbol = r"\w+|\"(?:\\.|[^\"\\])*\"|'(?:\\.|[^'\\])*'"
         reg_prompt = re.compile(r"^\".*?\"\s+(?:if)\s+(?P<expression0>.*)$")
-        reg_default = re.compile(r"^(?P<expression0>.*)\s+(?:if)\s+(?P<expression1>.*)$")
+        # The "if" that starts the condition stands outside quotes (default "go if ready" has no condition)
+        reg_default = re.compile(
+            r"^(?P<expression0>(?:\"(?:\\.|[^\"\\])*\"|'(?:\\.|[^'\\])*'|[^\"'])*?)\s+(?:if)\s+(?P<expression1>.*)$"
+        )
         reg_select_imply = re.compile(rf"^(?P<expression0>{symbol})\s+(?:if)\s+(?P<expression1>.*)$")
         reg_range = re.compile(
             rf"^(?P<expression0>{symbol})\s+(?P<expression1>{symbol})\s+(?:if)\s+(?P<expression2>.*)$"
